@@ -1,6 +1,9 @@
 package engines
 
 import (
+	"verif/harness/internal/ciscomodel"
+	"strconv"
+	"sort"
 	"fmt"
 	"strings"
 
@@ -238,6 +241,32 @@ var asaSpell = [][3]string{
 	{"access-list inside_in extended permit icmp any4 host 10.9.9.1 40 log warnings", "access-list inside_in extended permit icmp any4 host 10.9.9.1 40 log 4", "access-list inside_in extended permit icmp any4 host 10.9.9.1 41 log 4"},
 	{"access-list inside_in extended permit tcp any4 eq ssh host 10.9.9.1", "access-list inside_in extended permit tcp any4 eq 22 host 10.9.9.1", "access-list inside_in extended permit tcp any4 eq 23 host 10.9.9.1"},
 	{"access-list inside_in extended permit 6 any4 host 10.9.9.1 eq 80", "access-list inside_in extended permit tcp any4 host 10.9.9.1 eq 80", "access-list inside_in extended permit tcp any4 host 10.9.9.1 eq 82"},
+}
+
+// every ICMPv6 type name and every ICMP type name of the ASA: printed by
+// name on the device, given by number in the target (equal / next number)
+func init() {
+	add := func(proto, dst string, names map[string]string, only map[string]bool) {
+		var l []string
+		for n := range names {
+			l = append(l, n)
+		}
+		sort.Strings(l)
+		for _, n := range l {
+			v := names[n]
+			if strings.Contains(v, " ") || (only != nil && !only[n]) {
+				continue // type + code names are IOS only
+			}
+			k, _ := strconv.Atoi(v)
+			pre := "access-list inside_in extended permit " + proto + " " + dst + " "
+			asaSpell = append(asaSpell, [3]string{pre + n, pre + v, pre + strconv.Itoa(k+1)})
+		}
+	}
+	add("icmp6", "any6 host 1000::1", ciscomodel.Icmp6Names(), nil)
+	add("icmp", "any4 host 10.9.9.1", ciscomodel.IcmpNames(), map[string]bool{"echo-reply": true, "unreachable": true, "source-quench": true, "redirect": true,
+		"alternate-address": true, "echo": true, "router-advertisement": true, "router-solicitation": true, "time-exceeded": true, "parameter-problem": true,
+		"timestamp-request": true, "timestamp-reply": true, "information-request": true, "information-reply": true, "mask-request": true, "mask-reply": true,
+		"traceroute": true, "conversion-error": true, "mobile-redirect": true})
 }
 
 func asaSpellSpace() *space {
